@@ -25,6 +25,8 @@ def eval_case(flex, workdir, prog, spec_text, flex_opts, inputs, fuel=30000, che
     rc, out, err = scanner.run_flex(flex, "s.l", cfile, flex_opts, workdir)
     res['flex_rc'] = rc
     res['flex_err'] = err.decode(errors="replace")[:2000]
+    # the property excludes rule sets for which flex prints this warning (C06)
+    res['dangerous'] = "dangerous trailing context" in err.decode(errors="replace")
     if rc != 0:
         res['problems'].append(('flex-error', res['flex_err'][:300]))
         return res
@@ -63,15 +65,24 @@ def eval_case(flex, workdir, prog, spec_text, flex_opts, inputs, fuel=30000, che
                     real[(ii, sc)] = scanner.parse_tokens(out)
     # queries for the extracted code
     queries = []
+    rej = tables.is_reject(t)
+    varsx = "(" + " ".join(str(v) for v in tables.var_rules(t)) + ")"
+    adjx = tables.adj_sexp(t)
+    res['reject_tables'] = rej
+    res['var_rules'] = tables.var_rules(t)
+    res['trailctx'] = {str(k): v for k, v in t['trailctx'].items()}
     if check_lockstep:
         for sc in range(1, nsc + 1):
             for bol in (0, 1):
-                queries.append("(lockstep t %d %d %d)" % (sc, bol, fuel))
+                if rej:
+                    queries.append("(lockstep_r t %s %d %d %d)" % (varsx, sc, bol, fuel))
+                else:
+                    queries.append("(lockstep t %d %d %d)" % (sc, bol, fuel))
     order = []
     for ii, w in enumerate(inputs):
         wsx = "(" + " ".join(str(b) for b in w) + ")"
         for sc in run_scs:
-            queries.append("(viewtokens t %d 1 %s)" % (sc, wsx))
+            queries.append("(viewtokens_tc t %d 1 %s %s)" % (sc, wsx, adjx))
             order.append(('view', ii, sc))
             r = real.get((ii, sc))
             if r is not None and all(isinstance(x[0], int) for x in r):
@@ -119,7 +130,9 @@ def eval_case(flex, workdir, prog, spec_text, flex_opts, inputs, fuel=30000, che
                     text_ok = False
                 pos += ln
             res['streams'].append({'input': hexs(w), 'sc': sc, 'real': [(a, b) for a, b, _ in r], 'valid': okv, 'text_ok': text_ok})
-            if not okv:
+            if res['dangerous']:
+                pass
+            elif not okv:
                 res['problems'].append(('token-mismatch', "sc=%d input=%s real=%s" % (sc, hexs(w), [(a, b) for a, b, _ in r][:40])))
             elif not text_ok:
                 res['problems'].append(('yytext-mismatch', "sc=%d input=%s" % (sc, hexs(w))))
